@@ -344,19 +344,19 @@ Proof.
   set (s := jump_until _ s0 _).
   assert (H : tinv s) by (apply jump_until_ind; [apply tinv_jump|exact H0]).
   destruct (negb (_ && _)); [discriminate|].
-  assert (Hsame : forall r0, Ok (s, r0) = Ok (s', res) -> tinv s') by (intros r0 E; inversion E; subst; exact H).
+  assert (Hsame : forall r0, Ok (s0, r0) = Ok (s', res) -> tinv s') by (intros r0 E; inversion E; subst; exact H0).
   destruct (negb (hd_ok hd)); [apply Hsame|].
   destruct (negb (hd_height hd =? k_init_h s) && _); [apply Hsame|].
   destruct (negb (valset_equal (hd_vals hd) (v_vals (k_vot s)) && vs_ok (hd_vals hd))); [apply Hsame|].
   destruct (negb (vs_ok (hd_next hd))); [apply Hsame|].
-  destruct (fold_left _ (cp_proofs cp) ([], true)) as [temp allv].
+  destruct (fold_left _ (signed_entries (cp_proofs cp)) ([], true)) as [temp allv].
   destruct (negb allv); [apply Hsame|].
+  destruct (pm_get temp (hd_hash hd)); [|apply Hsame].
+  unfold bind at 1. destruct (byz_majority _); [|discriminate].
+  destruct (_ <? _); [apply Hsame|].
   fold (replay_insert s hd (cp_round cp)).
   unfold bind at 1. destruct (replay_insert s hd (cp_round cp)) as [s1|] eqn:Hins; [|discriminate].
   pose proof (tinv_replay_insert _ _ _ _ H Hins) as H1.
-  destruct (pm_get temp (hd_hash hd)); [|intros E; inversion E; subst; exact H1].
-  unfold bind at 1. destruct (byz_majority _); [|discriminate].
-  destruct (_ <? _); [intros E; inversion E; subst; exact H1|].
   unfold bind. destruct (check_voting_precommit_shift _) as [s3|] eqn:Hc; [|discriminate].
   intros E; inversion E; subst.
   eapply tinv_check_voting; [|exact Hc].
@@ -1006,51 +1006,133 @@ Proof.
   rewrite E in Hmp. discriminate.
 Qed.
 
-(** ** What a replayed header does to the round: a different, certificate-carrying operation *)
-Theorem replay_round ih ivs s0 hd cp s' res :
-  cinv ih ivs s0 -> hd_height hd + 1 < two64 -> handle_replay s0 hd cp = Ok (s', res) ->
-  (hd_height hd <> v_h (k_vot s0) /\ s' = s0 /\ res = 1) \/
-  (hd_height hd = v_h (k_vot s0) /\ v_r (k_vot s0) <= cp_round cp /\
-   (v_h (k_vot s') = v_h (k_vot s0) ->
-      v_r (k_vot s') = cp_round cp \/ (res = 0 /\ v_r (k_vot s') = wrap32 (cp_round cp + 1)))).
+(** ** What a replayed header does: a different, certificate-carrying operation *)
+
+(** a replayed header that is not accepted (result 1: other height, result 2: validation error) leaves
+    the whole state as it was - for every state, no invariant needed *)
+Theorem replay_rejected_identity s0 hd cp s' res :
+  handle_replay s0 hd cp = Ok (s', res) -> res <> 0 -> s' = s0.
 Proof.
-  intros H0 Hb. unfold handle_replay.
+  unfold handle_replay.
+  assert (Hsame : forall r0, Ok (s0, r0) = Ok (s', res) -> res <> 0 -> s' = s0)
+    by (intros r0 E _; inversion E; reflexivity).
+  destruct (negb (hd_height hd =? _)); [apply Hsame|].
+  destruct (cp_round cp <? _); [discriminate|].
+  set (s := jump_until _ s0 _).
+  destruct (negb (_ && _)); [discriminate|].
+  destruct (negb (hd_ok hd)); [apply Hsame|].
+  destruct (negb (hd_height hd =? k_init_h s) && _); [apply Hsame|].
+  destruct (negb (valset_equal (hd_vals hd) (v_vals (k_vot s)) && vs_ok (hd_vals hd))); [apply Hsame|].
+  destruct (negb (vs_ok (hd_next hd))); [apply Hsame|].
+  destruct (fold_left _ (signed_entries (cp_proofs cp)) ([], true)) as [temp allv].
+  destruct (negb allv); [apply Hsame|].
+  destruct (pm_get temp (hd_hash hd)); [|apply Hsame].
+  unfold bind at 1. destruct (byz_majority _); [|discriminate].
+  destruct (_ <? _); [apply Hsame|].
+  fold (replay_insert s hd (cp_round cp)).
+  unfold bind at 1. destruct (replay_insert s hd (cp_round cp)) as [s1|]; [|discriminate].
+  unfold bind. destruct (check_voting_precommit_shift _) as [s3|]; [|discriminate].
+  intros E; inversion E; subst. intros Hn. exfalso. apply Hn. reflexivity.
+Qed.
+
+Lemma jump_until_vals fuel s r X :
+  v_vals (k_vot s) = X -> v_vals (k_nxt s) = X ->
+  v_vals (k_vot (jump_until fuel s r)) = X /\ v_vals (k_nxt (jump_until fuel s r)) = X.
+Proof.
+  intros A B.
+  apply (jump_until_ind (fun s => v_vals (k_vot s) = X /\ v_vals (k_nxt s) = X)); [|split; assumption].
+  intros s1 [A1 B1]. unfold jump_voting_round, increment_voting_round, update_observers. cbn. split; assumption.
+Qed.
+
+(** An accepted replayed header (result 0) is for the voting height and the voting round or a later one,
+    carries a majority certificate for exactly that height, the replayed round and the header's hash -
+    genuine precommits of the voting view's validators with at least the Byzantine majority of that set's
+    power (the replayed signatures merged with the ones already held for that round) - and, if the height
+    stays, leaves the mirror in the replayed commit round or one past it. *)
+Theorem replay_round ih ivs s0 hd cp s' res :
+  INV ih ivs s0 -> hd_height hd + 1 < two64 -> handle_replay s0 hd cp = Ok (s', res) ->
+  (res <> 0 /\ s' = s0) \/
+  (res = 0 /\ hd_height hd = v_h (k_vot s0) /\ v_r (k_vot s0) <= cp_round cp /\
+   (exists hp maj,
+      auth_proof (vs_keys (v_vals (k_vot s0))) KPrecommit (hd_height hd) (cp_round cp) (hd_hash hd) hp /\
+      byz_majority (sum_pows (vs_pows (v_vals (k_vot s0)))) = Ok maj /\
+      maj <= proof_power (vs_pows (v_vals (k_vot s0))) hp) /\
+   (v_h (k_vot s') = v_h (k_vot s0) ->
+      v_r (k_vot s') = cp_round cp \/ v_r (k_vot s') = wrap32 (cp_round cp + 1))).
+Proof.
+  intros I0 Hb Hres.
+  destruct (N.eq_dec res 0) as [Hz|Hnz]; [|left; split; [exact Hnz|eapply replay_rejected_identity; eassumption]].
+  right. subst res. split; [reflexivity|]. revert Hres. unfold handle_replay.
+  assert (Hno : forall r0, r0 <> 0 -> Ok (s0, r0) = Ok (s', 0) -> False)
+    by (intros r0 Hr0 E; inversion E; congruence).
   destruct (N.eqb_spec (hd_height hd) (v_h (k_vot s0))) as [Eh|Eh]; cbn [negb];
-    [|intros E; inversion E; subst; left; auto].
-  destruct (cp_round cp <? _) eqn:Hlt; [discriminate|]. apply N.ltb_ge in Hlt.
-  destruct (cinv_adv_jump_until ih ivs (N.to_nat (cp_round cp - v_r (k_vot s0))) s0 (cp_round cp) H0) as [H A].
+    [|intros E; exfalso; eapply (Hno 1); [discriminate|exact E]].
+  destruct (cp_round cp <? _) eqn:Hlt0; [discriminate|]. apply N.ltb_ge in Hlt0.
+  pose proof (INV_jump_until ih ivs (N.to_nat (cp_round cp - v_r (k_vot s0))) s0 (cp_round cp) I0) as I.
+  assert (Hvals0 : v_vals (k_vot s0) = v_vals (k_vot s0) /\ v_vals (k_nxt s0) = v_vals (k_vot s0)).
+  { split; [reflexivity|]. destruct I0 as ((_&_&_&_&_&_&Hvv&Hvn&_)&_). congruence. }
+  destruct (jump_until_vals (N.to_nat (cp_round cp - v_r (k_vot s0))) s0 (cp_round cp) _ (proj1 Hvals0) (proj2 Hvals0))
+    as [Hvals _].
   set (s := jump_until _ s0 _) in *.
+  destruct I as (H&Ha&[[Savail _] _]&_).
   destruct ((v_r (k_vot s) =? cp_round cp) && (v_h (k_vot s) =? hd_height hd)) eqn:Hpos; cbn [negb]; [|discriminate].
   apply andb_true_iff in Hpos as [Hr Hh]. apply N.eqb_eq in Hr, Hh.
-  intros Hres. right. split; [exact Eh|]. split; [exact Hlt|]. intros Hsame. revert Hres.
-  assert (Hs : forall r0, Ok (s, r0) = Ok (s', res) ->
-            v_r (k_vot s') = cp_round cp \/ (res = 0 /\ v_r (k_vot s') = wrap32 (cp_round cp + 1)))
-    by (intros r0 E; inversion E; subst; left; exact Hr).
-  destruct (hd_ok hd) eqn:Hok; cbn [negb]; [|apply Hs].
-  destruct (negb (hd_height hd =? k_init_h s) && negb (bytes_eqb (hd_prev hd) (chdr_hash s))) eqn:Hprev; [apply Hs|].
-  destruct (valset_equal (hd_vals hd) (v_vals (k_vot s)) && vs_ok (hd_vals hd)); cbn [negb]; [|apply Hs].
-  destruct (vs_ok (hd_next hd)) eqn:Hnext; cbn [negb]; [|apply Hs].
-  destruct (fold_left _ (cp_proofs cp) ([], true)) as [temp allv].
-  destruct (negb allv); [apply Hs|].
+  assert (Hs : Ok (s0, 2) = Ok (s', 0) ->
+            hd_height hd = v_h (k_vot s0) /\ v_r (k_vot s0) <= cp_round cp /\
+            (exists hp maj,
+               auth_proof (vs_keys (v_vals (k_vot s0))) KPrecommit (hd_height hd) (cp_round cp) (hd_hash hd) hp /\
+               byz_majority (sum_pows (vs_pows (v_vals (k_vot s0)))) = Ok maj /\
+               maj <= proof_power (vs_pows (v_vals (k_vot s0))) hp) /\
+            (v_h (k_vot s') = v_h (k_vot s0) ->
+               v_r (k_vot s') = cp_round cp \/ v_r (k_vot s') = wrap32 (cp_round cp + 1)))
+    by (intros E; exfalso; eapply (Hno 2); [discriminate|exact E]).
+  destruct (hd_ok hd) eqn:Hok; cbn [negb]; [|exact Hs].
+  destruct (negb (hd_height hd =? k_init_h s) && negb (bytes_eqb (hd_prev hd) (chdr_hash s))) eqn:Hprev; [exact Hs|].
+  destruct (valset_equal (hd_vals hd) (v_vals (k_vot s)) && vs_ok (hd_vals hd)) eqn:Hveq; cbn [negb]; [|exact Hs].
+  apply andb_true_iff in Hveq as [Hveq _]. destruct (valset_equal_keys _ _ Hveq) as [Hkeys Hpows].
+  destruct (vs_ok (hd_next hd)) eqn:Hnext; cbn [negb]; [|exact Hs].
+  destruct (fold_left _ (signed_entries (cp_proofs cp)) ([], true)) as [temp allv] eqn:Hf.
+  assert (Htemp : auth_pmap (vs_keys (hd_vals hd)) KPrecommit (hd_height hd) (cp_round cp) temp).
+  { eapply replay_temp_auth; [| |exact Hf].
+    - destruct Ha as (_&[_ Hvpc]&_). rewrite Hkeys, <- Hr, <- Hh. exact Hvpc.
+    - apply auth_pmap_nil. }
+  destruct (negb allv); [exact Hs|].
+  destruct (pm_get temp (hd_hash hd)) as [hp|] eqn:Hg; [|exact Hs].
+  unfold bind at 1. destruct (byz_majority (sm_avail (v_sum (k_vot s)))) as [maj|] eqn:Hmaj; [|discriminate].
+  destruct (proof_power (vs_pows (hd_vals hd)) hp <? maj) eqn:Hpw; [exact Hs|]. apply N.ltb_ge in Hpw.
   fold (replay_insert s hd (cp_round cp)).
   unfold bind at 1. destruct (replay_insert s hd (cp_round cp)) as [s1|] eqn:Hins; [|discriminate].
   pose proof (replay_checks_good _ _ _ _ (cp_round cp) H Hh Hok Hnext Hb Hprev) as Hgood.
   destruct (cinv_replay_insert _ _ _ _ _ _ H Hgood Hins) as [H1 (_&F1b&F1c&_)].
-  assert (Hs1 : forall r0, Ok (s1, r0) = Ok (s', res) ->
-            v_r (k_vot s') = cp_round cp \/ (res = 0 /\ v_r (k_vot s') = wrap32 (cp_round cp + 1)))
-    by (intros r0 E; inversion E; subst; left; congruence).
-  destruct (pm_get temp (hd_hash hd)); [|apply Hs1].
-  unfold bind at 1. destruct (byz_majority _); [|discriminate].
-  destruct (_ <? _); [apply Hs1|].
   unfold bind. destruct (check_voting_precommit_shift _) as [s3|] eqn:Hc; [|discriminate].
-  intros E; inversion E; subst s3 res.
+  intros E; inversion E; subst s3.
+  split; [exact Eh|]. split; [exact Hlt0|]. split.
+  { exists hp, maj. rewrite <- Hvals, <- Hkeys, <- Hpows.
+    split; [eapply pm_get_auth; eassumption|]. split; [|exact Hpw].
+    rewrite Hpows, <- Savail. exact Hmaj. }
+  intros Hsame.
   match type of Hc with check_voting_precommit_shift ?X = _ => set (s2 := X) in * end.
   assert (F2 : frame_eq s1 s2) by (unfold s2, frame_eq, pos_eq; cbn; repeat split).
   pose proof (cinv_frame _ _ _ _ F2 H1) as H2. destruct (frame_pos _ _ F2) as (P2h&P2r&_).
   destruct (check_voting_cases _ _ Hc) as [->|[(-> & _)|(q & Hin & _ & ->)]].
   - left. congruence.
-  - right. split; [reflexivity|]. destruct (pos_advance ih ivs s2 H2) as [_ R]. rewrite R. congruence.
+  - right. destruct (pos_advance ih ivs s2 H2) as [_ R]. rewrite R. congruence.
   - exfalso. rewrite (pos_shift ih ivs s2 q H2 Hin) in Hsame. lia.
+Qed.
+
+Theorem replay_round_reachable ih ivs s0 hd cp s' res :
+  1 <= ih -> vs_ok ivs = true -> reachable_b ih ivs s0 -> hd_height hd + 1 < two64 ->
+  step s0 (OpReplay hd cp) = Ok (s', res) ->
+  (res <> 0 /\ s' = s0) \/
+  (res = 0 /\ hd_height hd = v_h (k_vot s0) /\ v_r (k_vot s0) <= cp_round cp /\
+   (exists hp maj,
+      auth_proof (vs_keys (v_vals (k_vot s0))) KPrecommit (hd_height hd) (cp_round cp) (hd_hash hd) hp /\
+      byz_majority (sum_pows (vs_pows (v_vals (k_vot s0)))) = Ok maj /\
+      maj <= proof_power (vs_pows (v_vals (k_vot s0))) hp) /\
+   (v_h (k_vot s') = v_h (k_vot s0) ->
+      v_r (k_vot s') = cp_round cp \/ v_r (k_vot s') = wrap32 (cp_round cp + 1))).
+Proof.
+  intros Hi Hok Hr Hb Hs. eapply replay_round; [apply reachable_INV; eassumption|exact Hb|exact Hs].
 Qed.
 
 (** ** Small facts stated in Properties/C06Power.v *)
